@@ -301,8 +301,9 @@ def w4(rec, quick):
                     reps[P] = [CG.to_lib(modkey, P, deg, rng, scale=s, classes=classes) for s in (scales if P is not None else [None])]
             cnt = 0
             full = len(pts) <= 16 or not quick
+            big = quick and n > 35
             for P in pts:
-                for Q in pts:
+                for Q in (pts if not big else rng.sample(pts, 10) + [P, E.neg(P), None]):
                     ra = reps[P] if full else [rng.choice(reps[P])]
                     for a in ra:
                         bq = rng.choice(reps[Q])
@@ -326,14 +327,15 @@ def w4(rec, quick):
                 rec.classes["W4:triples"] += t
                 rec.count_distinct(t)
             s = 0
-            for P in pts:
+            for P in (pts if not big else rng.sample(pts, 8)):
                 for k in range(0, 2 * n + 2):
                     call(c.multiply, rng.choice(reps[P]), k)
                     s += 1
             rec.classes["W4:scalars"] += s
             rec.count_distinct(s)
-            rec.exhaustive_space("%s add/double/neg/multiply on y^2=x^3+%r over %r (#E=%d): all ordered pairs%s, all scalars 0..2#E+1" % (
-                modkey, b, "GF(%d)" % F.p if F.k == 1 else "GF(%d^2)/%r" % (F.p, F.mc), n, " x all rescalings" if rep == "opt" and full else ""), cnt + s)
+            if not big:
+                rec.exhaustive_space("%s add/double/neg/multiply on y^2=x^3+%r over %r (#E=%d): all ordered pairs%s, all scalars 0..2#E+1" % (
+                    modkey, b, "GF(%d)" % F.p if F.k == 1 else "GF(%d^2)/%r" % (F.p, F.mc),     n, " x all rescalings" if rep == "opt" and full else ""), cnt + s)
         if len(rec.samples) < 10:
             rec.samples.append({"class": "W4", "case": {"field": "GF(%d^%d)" % (F.p, F.k), "b": b, "order": n, "modules": CG.MODKEYS}})
 
